@@ -488,7 +488,11 @@ def run_scenario(case: dict[str, Any], ctx: Ctx) -> None:
     # ones moderately; the in-memory / fakeredis thread layouts are enumerated completely
     limit = (24 if "sqlite" in lay else 40 if "journal_file" in lay else 70 if lay.startswith("procs:journal_redis") else 300 if "journal_redis" in lay else 600) if ctx.tier == "quick" else 100000
     pts = conc.switch_points(n, len(case["workers"]), limit, case["salt"])
-    if "sqlite" in lay and ctx.tier == "quick":
+    if lay == "threads:cached_sqlite" and ctx.tier == "quick" and case.get("every_line"):
+        # threads sharing one cache object: the windows are single lines inside the cache's own
+        # critical sections, so every yield point counts (up to 400; a stride beyond that)
+        pts = conc.switch_points(n, len(case["workers"]), 400, case["salt"])
+    elif "sqlite" in lay and ctx.tier == "quick":
         # quick tier on the SQLite layouts: every preemption next to an SQL statement / commit
         # (those decide what the other connection sees) plus a thin stride over all source lines
         sqlp = conc.sql_switch_points(n, len(case["workers"]), 70, case["salt"])
@@ -562,7 +566,7 @@ def enum_classic(ctx: Ctx, tier: str, shard: int, nshards: int) -> None:
         ctx.sub = "classic"
         run_scenario(case, ctx)
         ctx.event("classic:" + name)
-    ctx.exhaustive_parts.append("the sixteen classic races on all twelve layouts: every single-preemption schedule on the in-memory layout (quick tier: every second yield point on the fakeredis thread layout, 70 / 40 sampled switch points on the 'process' fakeredis / journal-file layouts, every SQL-statement / commit / lock-release boundary plus 8 sampled points on the SQLite layouts, a rotating stride so that a window wider than the stride is always hit; thorough tier: all)")
+    ctx.exhaustive_parts.append("the sixteen classic races on all twelve layouts: every single-preemption schedule on the in-memory layout (quick tier: every second yield point on the fakeredis thread layout, 70 / 40 sampled switch points on the 'process' fakeredis / journal-file layouts, every SQL-statement / commit / lock-release boundary plus 8 sampled points on the SQLite layouts (C08 runs its read races on threads:cached_sqlite with every yield point), a rotating stride so that a window wider than the stride is always hit; thorough tier: all)")
 
 
 CHECKS = [
